@@ -78,6 +78,28 @@ class RecordingTransport(Transport):
         return [line for stp, line in self.writes if stp == step]
 
 
+class strict_warnings:
+    """Run a block the way `python -W error` / pytest's `filterwarnings = error` would: a warning issued from the library is an exception."""
+
+    def __init__(self, enabled: bool) -> None:
+        self.enabled = enabled
+        self.ctx = None
+
+    def __enter__(self):
+        if self.enabled:
+            import warnings
+
+            self.ctx = warnings.catch_warnings()
+            self.ctx.__enter__()
+            warnings.filterwarnings("error", module=r"aiomysensors(\..*)?")
+        return self
+
+    def __exit__(self, *exc) -> None:
+        if self.ctx is not None:
+            self.ctx.__exit__(*exc)
+            self.ctx = None
+
+
 class FakeClock:
     """While active, time.monotonic()/time.time() run `offset` seconds ahead; `advance` lets hours pass in no time."""
 
@@ -400,6 +422,7 @@ class MemTransport(asyncio.Transport):
         self.lost_exc: BaseException | None = None
         self.protocol: Any = None
         self.closed_count = 0
+        self.discarded = 0  # queued objects thrown away by abort() before any close() (a graceful close flushes them, an abort does not)
 
     @property
     def data(self) -> bytes:
@@ -435,6 +458,8 @@ class MemTransport(asyncio.Transport):
                     pass  # closed by the garbage collector after the loop is gone
 
     def abort(self) -> None:
+        # (the peer is slow: everything written is still queued here; abort() drops the queue, close() would have flushed it)
+        self.discarded += len(self.chunks)
         self.close()
 
     def get_extra_info(self, name, default=None):
